@@ -240,7 +240,8 @@ BACKTRACKING:
 }
 
 func isReservedCharacter(c byte) bool {
-	return c == ParamCharacter || c == WildcardCharacter || c == TerminationCharacter
+	// a NUL byte cannot label an edge either: its CHECK value is that of an unused slot.
+	return c == ParamCharacter || c == WildcardCharacter || c == TerminationCharacter || c == 0
 }
 
 // nextPathSeparator returns the index of the next separator in a looked-up path.
